@@ -26,7 +26,7 @@ LEVEL_TEXT = ('Coq theorems over an executable Gallina model of isValidArgument/
               'privmsg/notice/action, callbacks._makeReply, label insertion + outFilter chain + Irc._truncateMsg in takeMsg and IrcMsg.__str__ (reused from C05): '
               'every message the keyword constructor accepts serialises to exactly one CR LF terminated line without inner CR/LF/NUL, for any reply text and any '
               'reply configuration _makeReply either raises AssertionError or yields such a line, truncation preserves it and bounds the untagged part to 512 '
-              'characters; the 512-byte bound is proved for ASCII and refuted for multi-byte text (finding F19), the msg= constructor branch is proved unchecked '
+              'BYTES of UTF-8 for every line, multi-byte text included (full statement since the repair of C06.F19; a line with a lone surrogate now fails inside the firewalled takeMsg and is dropped, which closed C06.F22), the msg= constructor branch is proved unchecked '
               '(witness) and its call sites are pinned by a regenerated inventory.  Tie: regenerated tables (forbidden characters, truncation constants, reply '
               'literals, maker shapes, isprintable ranges, msg= site inventory) + differential run of the extracted model + live exploration of all plugin commands.')
 LEVEL_NOTE = ('Trusted: Coq kernel, gen_tables.py, extraction + driver, harness.  Plugin-built messages (own IrcMsg/maker calls) and plugin outFilters are '
@@ -175,6 +175,9 @@ def _drain(B):
 
 def check_out(m):
     """the property text on one message returned by takeMsg(): list of (clause, detail)"""
+    if isinstance(m, UnicodeEncodeError):
+        # _truncateMsg encodes the line: the message never gets a wire form, takeMsg() raises into the driver instead
+        return [('encode', 'takeMsg() raised for a line that cannot be encoded for the socket: %s' % m)]
     if isinstance(m, Exception):
         return []
     bad = []
@@ -604,6 +607,8 @@ def impl_line(s):
 
 def exn_name(e):
     n = type(e).__name__
+    if isinstance(e, UnicodeError):
+        return 'UnicodeError'          # str.encode() on a lone surrogate
     return n if n in wire.EXN.values() else 'OtherError'
 
 
@@ -730,8 +735,8 @@ def case_reply(ctx, B, g, mo, msg):
 def gen_line(rng):
     k = rng.random()
     body = rng.choice(['PRIVMSG #c :', ':n!u@h NOTICE bob :', 'X ', '', '@'])
-    fill = rng.choice(['a', 'é', '\U0001f600', 'ab é', ' ', '@', 'x '])
-    n = rng.choice([0, 1, 10, 480, 495, 498, 499, 500, 501, 502, 503, 508, 509, 510, 511, 512, 513, 600, 1200])
+    fill = rng.choice(['a', 'é', '\U0001f600', 'ab é', ' ', '@', 'x ', 'é\u65e5', 'a\ud800', '\u07ff\u0800\uffff\U00010000'])
+    n = rng.choice([0, 1, 10, 120, 125, 126, 127, 128, 165, 166, 170, 248, 249, 250, 251, 255, 480, 495, 498, 499, 500, 501, 502, 503, 508, 509, 510, 511, 512, 513, 600, 1200])
     tags = rng.choice(['', '', '@a=b ', '@label=x;msgid=' + 'y' * 600 + ' ', '@nospace', '@ ', '@a  '])
     s = tags + body + (fill * n)[:n]
     if k < 0.85:
@@ -804,7 +809,7 @@ def case_take(ctx, B, g, label, mo):
 def gen_take(rng):
     g = gen_ctor(rng)
     g['command'] = rng.choice(['PRIVMSG', 'NOTICE', 'MODE'])
-    fill = rng.choice(['a', 'é', '\U0001f600', 'wé '])
+    fill = rng.choice(['a', 'é', '\U0001f600', 'wé ', 'é\u65e5\U0001f600', 'a\udfff'])
     n = rng.choice([0, 5, 400, 495, 499, 500, 501, 505, 600, 900])
     g['args'] = ['#c', (fill * n)[:n]]
     return g
@@ -850,18 +855,28 @@ def _surrogate(x):
 
 
 CLASSES = {
-    # the byte-length clause fails and the input carries multi-byte text (truncation / length checks count characters)
-    # (either typed in the invocation, or held in the bot's state: the line is within 512 CHARACTERS and only its bytes exceed)
-    'multibyte_overlength': lambda inp: inp.get('clause') == 'bytes' and (_nonascii(inp) or inp.get('chars', 10 ** 6) <= MAXB),
-    # a lone surrogate (typed as a quoted \\udXXX escape or raw) reaches a plugin-built message: the line cannot be encoded
-    'unencodable_surrogate': lambda inp: inp.get('clause') == 'encode' and _surrogate(inp),
 }
+
+
+# witnesses of repaired findings (C06.F19: _truncateMsg counted characters): run first on every check
+F22_LIVE = {'op': 'live', 'clause': 'encode', 'history': [],
+            'inv': {'caller': 'alice', 'where': 'chan', 'text': 'channel part x y "\\ud800"', 'conf': {}}}
+FIXED_CORPUS = [F19_LIVE, F19_API, F22_LIVE,
+                {'op': 'take', 'clause': 'bytes', 'label': 'lbl-1',
+                 'msg': {'tags': {'a': 'b'}, 'prefix': 'srv', 'command': 'NOTICE', 'args': ['#c', '\U0001f600' * 200]}},
+                {'op': 'live', 'clause': 'bytes', 'history': [],
+                 'inv': {'caller': 'bob', 'where': 'chan', 'text': 'anonymous say ' + '\u65e5\u672c\u8a9e' * 120, 'conf': {}}}]
 
 
 def run(ctx):
     B = bot()
     rng = ctx.rng
     import itertools
+    for w in FIXED_CORPUS:
+        ctx.case('corpus-fixed', w)
+        d = replay(ctx, w)
+        if d:
+            ctx.fail(w, d)
     # --- safeArgument / repr
     texts = list(CORPUS_TEXT)
     small = ['\r', '\n', '\0', "'", '"', '\\', 'a', 'é', '\x85', '\U0001f600']
